@@ -315,6 +315,8 @@ func scenarioB(name string, cf cfg, lens [2][]int) sched.Scenario {
 
 func main() {
 	c = lib.New("C14", "model_checking", 170*time.Second, 25*time.Minute)
+	// library goroutines that take part in the workload-thread phase: syncer, value-appending precommit goroutines
+	vsched.WorkDaemons = []string{"store.OpenWith", "(*ImmuStore).precommit", "(*ImmuStore).preCommitWith"}
 	c.Assume("store level (embedded/store); the SQL catalog / document collection copy performed by pkg/database's truncator is exercised by the repository's own tests only")
 	cfgs := []cfg{{64, 1}, {128, 2}, {64, 3}}
 	maxLen := 4
